@@ -1,13 +1,19 @@
 (* C02 oracle and non-triviality on wiring cases. Correspondence: Corr/Wiring.v [wcheck];
    oracles: Corr/WiringOracles.v (static scenario data + the implementation's observation only). *)
 From Coq Require Import List Arith Bool.
-From IocVerif Require Import Model.App Corr.Wiring Corr.WiringOracles.
+From IocVerif Require Import Model.App Corr.Wiring Corr.WiringOracles Proofs.FactoryNoPanic Proofs.FactoryWiring Proofs.FactoryLiveness.
 Import ListNotations.
 
 Definition check_case : wcase -> bool := wcheck.
 
 (* terminates without panic/crash/hang; never wired to itself; satisfiable graphs without substitution or faults start with every required point populated *)
-Definition oracle_case (c : wcase) : bool := oracle_clean_outcome c && oracle_never_self c && oracle_cycles_succeed c && (if no_substitution c then oracle_points c else true).
+(* the hypotheses of theorem c02_cycles_succeed, evaluated on the scenario: whenever they hold the
+   IMPLEMENTATION must have started successfully (the theorem says the model does) *)
+Definition live_hyp (c : wcase) : bool :=
+  let s := normalise repaired (w_scn c) in
+  no_subst_b s && no_faults_b s && satisfiable_b repaired s && procs_pointless_b s && stages_ok_b s.
+
+Definition oracle_case (c : wcase) : bool := (if live_hyp c then ok_start c else true) && oracle_clean_outcome c && oracle_never_self c && oracle_cycles_succeed c && (if no_substitution c then oracle_points c else true).
 
 Definition nontrivial (c : wcase) : bool := has_cycle c.
 
@@ -15,3 +21,4 @@ Definition mismatches (cs : list wcase) : list nat := wmismatches cs.
 Definition violations (cs : list wcase) : list nat :=
   map w_id (filter (fun c => negb (oracle_case c)) cs).
 Definition count_nontrivial (cs : list wcase) : list nat := [length (filter nontrivial cs)].
+Definition count_live_hyp (cs : list wcase) : list nat := [length (filter (fun c => live_hyp c && has_cycle c) cs)].
